@@ -117,7 +117,12 @@ def run(P, R, tier):
             o_ = norm(t_) if isinstance(t_, ast.AST) else ''
             return '.ls(' in o_ or '.listdir(' in o_
         dir_reads = [c for c in astq.own_calls(g) if astq.is_call_to(P, g, c, rp) and c.args and _from_listing(c.args[0])]
-        R.floor('C19.b', f'reads of the listed directory in {g.name}', len(dir_reads), 1)
+        # reads of the files the caller expects (the sub-part list itself) do not depend on any listing: a file that is not there yet fails the read, which is retried
+        exp_reads = [c for c in astq.own_calls(g) if astq.is_call_to(P, g, c, rp) and c.args and c not in dir_reads
+                     and (astq.sources(g, c.args[0]) & (set(g.params) - listed - {g.params[-1]}))]
+        for c in exp_reads:
+            R.ok('C19.b', g, c, 'the expected sub-part files are read by name (no listing involved)', construct=f'{g.name}: read of expected files')
+        R.floor('C19.b', f'reads of the sub-parts in {g.name}', len(dir_reads) + len(exp_reads), 1)
         for c in dir_reads:
             rn = C.node(_stmt(c))
             gn = [C.node(s) for s in gates]
